@@ -15,6 +15,7 @@ CONSTANTS
   AfterHeight = 100
   LockNames = {"a", "b"}
   ConnectChoices <- AutoConnect
+  SwapChoices <- NoSwap
   ReorgChoices <- AutoReorg
   MaxTip = 640
   MaxSteps = 12
@@ -23,6 +24,6 @@ INIT PlainInit
 NEXT PlainSimNext
 VIEW View
 ACTION_CONSTRAINT Emit
-INVARIANTS FileInfoExact CursorAlive RecentHaveData
+INVARIANTS FileInfoExact FileInfoCovers CursorAlive RecentHaveData
 PROPERTIES PropRecentX PropLockedX PropBuffer PropAuto
 CHECK_DEADLOCK FALSE
